@@ -303,6 +303,10 @@ func fragCoords(f gens.JPFrag, node any) string {
 			}
 		}
 		return "union:" + strings.Join(ms, "+") + "@" + kind
+	case "filter":
+		if f.NestedRootFilter() {
+			return "filter:nested-filter-reads-$@" + kind
+		}
 	}
 	return f.K + "@" + kind
 }
@@ -468,9 +472,9 @@ func run(c *core.Ctx) {
 	}
 	var passes []pass
 	if c.Quick() {
-		passes = []pass{{gens.Paths(true), 2, gens.PathData(3)}, {gens.WidePaths(), 3, gens.WideDocs()}}
+		passes = []pass{{gens.Paths(true).AddFilter(gens.NestedRootScript()), 2, gens.PathData(3)}, {gens.WidePaths(), 3, gens.WideDocs()}}
 	} else {
-		passes = []pass{{gens.Paths(true), 2, gens.PathData(4)}, {gens.Paths(false), 3, gens.PathData(3)}, {gens.WidePaths(), 3, gens.WideDocs()}}
+		passes = []pass{{gens.Paths(true).AddFilter(gens.NestedRootScript()), 2, gens.PathData(4)}, {gens.Paths(false), 3, gens.PathData(3)}, {gens.WidePaths(), 3, gens.WideDocs()}}
 	}
 	n := 0
 	for _, p := range passes {
